@@ -250,6 +250,10 @@ def generate(ch, profile):
             other = "B" if c["side"] == "A" else "A"
             ops.append({"op": "create_peer", "tag": c["tag"], "side": other,
                         "t": ch.choice("wl", [0.0, 0.0, 0.01, 1.0])})
+        if profile == "c13" and ch.chance("wl", 0.4):
+            # thresholds that queued amounts hit exactly (multiples of the burst sizes) and others
+            ops.append({"op": "threshold", "tag": c["tag"], "side": c["side"], "t": 0.0,
+                        "value": ch.choice("wl", [1, 5, 100, 1200, 2400, 2401, 2402, 3600, 4800, 5000, 10000])})
     nsend = ch.choice("wl", [3, 5, 8, 12, 20, 30, 45, 60])
     counters = Counter()
     closed = set()
@@ -271,7 +275,7 @@ def generate(ch, profile):
             ops.append({"op": "send", "tag": "n%d" % len(reused), "side": "B" if side == "A" else "A",
                         "kind": "str", "size": 10, "t": ch.choice("wl", DTS)})
             continue
-        if r < 6 or (profile in ("c02", "c06") and r < 18):
+        if r < 6 or (profile in ("c02", "c06") and r < 18) or (profile == "c13" and 12 <= r < 24):
             # burst larger than the congestion window
             n = ch.choice("wl", [4, 8, 16, 30])
             size = ch.choice("wl", [1200, 1201, 2400, 5000])
@@ -323,6 +327,7 @@ class ChanModel:
         self.accepted = {"A": deque(), "B": deque()}   # (lo, hi) per queued message
         self.low_events = {"A": 0, "B": 0}
         self.low_expected = {"A": 0, "B": 0}
+        self.low_ambiguous = {"A": False, "B": False}
         self.model_amount = {"A": [0, 0], "B": [0, 0]}  # [lo, hi]
         self.threshold = {"A": 0, "B": 0}
 
@@ -684,12 +689,22 @@ class World:
                     self.violation("C13", "bufferedAmount:handed-more-than-accepted", "tag=%s" % model.tag)
                     return
                 lo, hi = model.accepted[side].popleft()
-                before_hi = model.model_amount[side][1]
+                before_lo, before_hi = model.model_amount[side]
                 model.model_amount[side][0] -= lo
                 model.model_amount[side][1] -= hi
                 thr = model.threshold[side]
-                if before_hi > thr and model.model_amount[side][1] <= thr and lo == hi:
+                if before_lo != before_hi or lo != hi:
+                    # an empty message is accounted as 0 or 1 byte: crossings are not decidable exactly
+                    if before_hi > thr and model.model_amount[side][0] <= thr:
+                        model.low_ambiguous[side] = True
+                        model.low_expected[side] += 1
+                elif before_hi > thr and model.model_amount[side][1] <= thr:
                     model.low_expected[side] += 1
+                    self.probes["threshold_crossed"] += 1
+                    if before_hi - hi == thr:
+                        self.probes["threshold_reached_exactly"] += 1
+                elif before_hi == thr and hi > 0:
+                    self.probes["drained_from_exactly_threshold"] += 1
                 return
 
     def check_buffered(self):
@@ -714,6 +729,27 @@ class World:
                 elif not (lo <= amt <= hi):
                     self.violation("C13", "bufferedAmount:not-accepted-minus-handed",
                                    "tag=%s side=%s actual=%d model=[%d,%d]" % (model.tag, side, amt, lo, hi))
+                    model.broken = True
+
+    def check_low_events(self, final=False):
+        """`bufferedamountlow` fires iff a decrease crosses the threshold from above:
+        never more events than crossings at any instant; exactly as many once quiescent."""
+        if "C13" not in self.props:
+            return
+        for model in self.chans.values():
+            for side in "AB":
+                if model.obj[side] is None or model.broken:
+                    continue
+                ev, ex = model.low_events[side], model.low_expected[side]
+                if ev > ex:
+                    self.violation("C13", "bufferedamountlow:fired-without-crossing-the-threshold",
+                                   "tag=%s side=%s events=%d crossings=%d threshold=%d" % (
+                                       model.tag, side, ev, ex, model.threshold[side]))
+                    model.broken = True
+                elif final and ev < ex and not model.low_ambiguous[side] and model.obj[side].readyState == "open":
+                    self.violation("C13", "bufferedamountlow:not-fired-on-crossing",
+                                   "tag=%s side=%s events=%d crossings=%d threshold=%d" % (
+                                       model.tag, side, ev, ex, model.threshold[side]))
                     model.broken = True
 
     # -- readyState tracking (C13) -----------------------------------------
@@ -776,6 +812,7 @@ class World:
             return
         try:
             self.check_buffered()
+            self.check_low_events()
             self.check_states()
             self.sample_state()
         except Exception as exc:  # noqa
@@ -1067,6 +1104,7 @@ class World:
         self.check_liveness_result(ok, "drain")
         if ok and self.connected():
             self.probes["drained_after_heal"] += 1
+            self.check_low_events(final=True)
             await self.probe_burst()
         await self.lifecycle()
 
